@@ -93,9 +93,9 @@ ADV_VARS = ["a#CNF#", "C#CNF#1", "A#SUBS#0", "#STARTUNION#", "Start", "C#CNF#2",
 
 
 def rand_cfg(rng, profile=None, names="plain", max_vars=4, max_terms=3, max_prods=8, max_body=4):
-    profile = profile or rng.choice(["plain", "eps", "unit", "unitcycle", "unitcycle", "recursive", "useless", "longshared", "nostartprod", "cnf", "cnfnames"])
+    profile = profile or rng.choice(["plain", "eps", "unit", "unitcycle", "unitcycle", "recursive", "useless", "longshared", "nostartprod", "cnf", "cnfnames", "epsonly"])
     nv = rng.randint(1, max_vars)
-    if profile == "unitcycle":
+    if profile in ("unitcycle", "epsonly"):
         nv = rng.randint(2, max_vars)
     if profile == "cnfnames":
         names = "cnf"
@@ -147,11 +147,18 @@ def rand_cfg(rng, profile=None, names="plain", max_vars=4, max_terms=3, max_prod
     if profile == "useless" and nv >= 2:
         u = vs[-1]
         prods = [p for p in prods if p[0] != u] + [[u, [["V", u], ["T", ts[0]]]]]
+    if profile == "epsonly" and nv >= 2:
+        # some variable derives only the empty word (possibly through itself)
+        e = vs[-1]
+        prods = [p for p in prods if p[0] != e] + [[e, []]]
+        if rng.random() < 0.5:
+            prods.append([e, [["V", e], ["V", e]]])
+        prods.append([vs[0], [["V", e], ["T", ts[0]], ["V", e]][:rng.randint(1, 3)]])
     if profile == "nostartprod":
         prods = [p for p in prods if p[0] != start]
     # make most grammars productive: give terminals rules
     if profile not in ("useless", "nostartprod") and rng.random() < 0.8:
-        for v in vs:
+        for v in (vs[:-1] if profile == "epsonly" else vs):
             if rng.random() < 0.6:
                 prods.append([v, [["T", rng.choice(ts)]]])
     spec = {"vars": vs, "terms": ts, "start": start, "prods": prods, "profile": profile, "names": names}
